@@ -612,12 +612,92 @@ def gc_cycles(ctx):
             gc_cycle(ctx, c)
 
 
+class Touchy:
+    """Key / metadata object whose __repr__ / __hash__ / __eq__ raise while `armed` names them."""
+
+    armed = ()
+
+    def __init__(self, v):
+        self.v = v
+
+    def __repr__(self):
+        if 'repr' in Touchy.armed:
+            raise RuntimeError('repr fails')
+        return f'Touchy({self.v})'
+
+    def __hash__(self):
+        if 'hash' in Touchy.armed:
+            raise RuntimeError('hash fails')
+        return hash(('Touchy', self.v))
+
+    def __eq__(self, other):
+        if 'eq' in Touchy.armed:
+            raise RuntimeError('eq fails')
+        return isinstance(other, Touchy) and self.v == other.v
+
+    def __lt__(self, other):
+        return self.v < other.v
+
+
+def self_failing(ctx):
+    """A treespec operation that fails inside user code reached from the treespec itself (key / metadata __repr__,
+    __hash__, __eq__) leaves the treespec -- and a treespec created afterwards -- exactly as it was."""
+    import pickle  # noqa: PLC0415
+    from collections import OrderedDict, defaultdict  # noqa: PLC0415
+
+    U, _ = e1.universe()
+    carriers = {
+        'dict': lambda: {Touchy(1): Leaf(0), Touchy(0): [Leaf(1)]},
+        'odict': lambda: OrderedDict([(Touchy(1), Leaf(0)), (Touchy(0), (Leaf(1),))]),
+        'ddict': lambda: defaultdict(list, {Touchy(1): Leaf(0)}),
+        'custom-meta': lambda: un.CN([Leaf(0), Leaf(1)], meta=Touchy(5)),
+        'nested': lambda: [{Touchy(1): {Touchy(2): Leaf(0)}}, Leaf(1)],
+    }
+    for cname, mk in carriers.items():
+        for arm in ('repr', 'hash', 'eq'):
+            for opname in ('repr', 'str', 'hash', 'eq', 'pickle', 'paths', 'child-repr', 'compose-repr', 'set-member'):
+                tree = mk()
+                if tree is None:
+                    continue
+                ns = 'ns' if cname == 'custom-meta' else ''
+                spec = optree.tree_structure(tree, namespace=ns)
+                other = optree.tree_structure(mk(), namespace=ns)
+                before = spec_vector(spec)
+                ops = {
+                    'repr': lambda: repr(spec), 'str': lambda: str(spec), 'hash': lambda: hash(spec),
+                    'eq': lambda: spec == other, 'pickle': lambda: pickle.loads(pickle.dumps(spec)),  # noqa: S301
+                    'paths': lambda: (spec.paths(), spec.accessors()), 'child-repr': lambda: [repr(c) for c in spec.children()],
+                    'compose-repr': lambda: repr(spec.compose(other)), 'set-member': lambda: spec in {other},
+                }
+                ctx.count()
+                ctx.cls(('self-failing', cname, arm, opname))
+                Touchy.armed = (arm,)
+                try:
+                    r = outcome_of(ops[opname])
+                finally:
+                    Touchy.armed = ()
+                after = spec_vector(spec)
+                case = {'self_failing': cname, 'armed': arm, 'op': opname}
+                ctx.outcome(f'self-failing:{r[0]}')
+                if after != before:
+                    diff = [(a, b) for a, b in zip(before, after) if a != b][0]
+                    ctx.violation('self-failing-operation', f'{PROP}:treespec-changed-by-failing-operation', case,
+                                  f'{opname} with {arm} raising ({r[0]}): treespec vector changed: {diff!r}'[:600])
+                del spec, other
+                again = spec_vector(optree.tree_structure(mk(), namespace=ns))
+                if again[0] != before[0]:
+                    ctx.violation('self-failing-operation', f'{PROP}:later-treespec-affected-by-failed-operation', case,
+                                  f'a treespec made after the failed {opname}: {again[0]!r} vs {before[0]!r}')
+
+
 def run_shard(ctx):
+    if ctx.shard == 0:
+        self_failing(ctx)
     hlen = 3 if ctx.tier == 'quick' else 4
     for sc in SCENARIOS:
         explore.all_histories(ctx, SpecSystem(sc), hlen, label=sc)
     gc_cycles(ctx)
-    preds = ['none', 'is_tuple']
+    preds = ['none', 'tuple_or_none']
     modes = ['sorted', 'ins_ns']
     e1.drive(ctx, ctx.tier, lambda tree, leaves, dsl, cfg: part_a(ctx, tree, leaves, dsl, cfg),
              profile='tiny', cfgs=e1.configs(ctx.tier, predicates=preds, modes=modes, namespaces=['', 'ns']))
@@ -625,7 +705,9 @@ def run_shard(ctx):
 
 def replay(case, ctx):
     c = case['case']
-    if 'gc_cycle' in c:
+    if 'self_failing' in c:
+        self_failing(ctx)
+    elif 'gc_cycle' in c:
         gc_cycle(ctx, c)
     elif 'history' in c:
         sysm = SpecSystem(c['label'])
